@@ -34,7 +34,9 @@ worker_init = scan_common.worker_init
 
 
 class SessionModel:
-    def __init__(self, nodes: tuple[int, ...], edges: frozenset[tuple[int, int]], flavour: int, tp_only_default: bool = False, latency: float = 0.0) -> None:
+    def __init__(self, nodes: tuple[int, ...], edges: frozenset[tuple[int, int]], flavour: int, tp_only_default: bool = False, latency: float = 0.0,
+                 reset_refused: frozenset[int] = frozenset()) -> None:
+        self.reset_refused = reset_refused  # sessions in which ECUReset is answered with conditionsNotCorrect
         self.nodes = nodes
         self.edges = edges
         self.flavour = flavour
@@ -55,6 +57,8 @@ class SessionModel:
                 return bytes([0x7F, 0x10, 0x12]), session
             return bytes([0x7F, 0x10, self.flavour]), session
         if sid == 0x11 and len(req) == 2:
+            if session in self.reset_refused:
+                return bytes([0x7F, 0x11, 0x22]), session
             return bytes([0x51, req[1] & 0x7F]), 1
         if sid == 0x22 and req[1:] == b"\xf1\x86":
             return bytes([0x62, 0xF1, 0x86, session]), session
@@ -112,11 +116,18 @@ def parse_paths(records: list[tuple[int, str, str]]) -> list[tuple[int, list[int
     return out
 
 
+def refused_of(variant: str, nodes: Any) -> frozenset[int]:
+    """variant 'rr<i><j>..': ECUReset is refused in the sessions nodes[i], nodes[j], .."""
+    if not variant.startswith("rr"):
+        return frozenset()
+    return frozenset(nodes[int(ch)] for ch in variant[2:])
+
+
 def run_case(item: tuple[Any, ...]) -> tuple[dict[str, Any], SessionModel]:
     nodes, edges, flavour, depth, skip, thorough, reset = item[:7]
     variant = item[8] if len(item) > 8 else ""
     model = SessionModel(tuple(nodes), frozenset(tuple(e) for e in edges), flavour,
-                         tp_only_default=variant == "tp", latency=0.3 if variant == "tp" else 0.0)
+                         tp_only_default=variant == "tp", latency=0.3 if variant == "tp" else 0.0, reset_refused=refused_of(variant, nodes))
     kw: dict[str, Any] = {"depth": depth, "skip": list(skip), "thorough": thorough}
     if reset:
         kw["reset"] = 1
@@ -160,7 +171,8 @@ def judge(item: tuple[Any, ...], box: dict[str, Any], model: SessionModel, res: 
     trapped = [t for t in want if (t, 1) not in edges]
     code = box.get("exit")
     if code != 0:
-        if code == 1 and trapped and not reset:
+        refused = refused_of(item[8] if len(item) > 8 else "", nodes)
+        if code == 1 and trapped and (not reset or any(t in refused for t in trapped)):
             res.count("documented_aborts")
             return
         v(f"exit-code|{code}|trapped={'yes' if trapped else 'no'}|reset={'on' if reset else 'off'}", f"scan ended with exit code {code}; reference result {sorted(want)}")
@@ -268,6 +280,9 @@ def items(tier: str, seed: int) -> list[Any]:
                         out.append((nodes, e, 0x7E, 1, (), False, True, True, "db2"))
                         out.append((nodes, e, 0x22, 2, (3,), False, True, True, "db2"))
                     out.append((nodes, e, 0x7E, 2, (), False, True))
+                    # --reset with an ECU that refuses ECUReset in one / both non-default sessions
+                    out.append((nodes, e, 0x12, 2, (), False, True, False, "rr1" if len(e) % 2 else "rr2"))
+                    out.append((nodes, e, 0x12, 3, (), len(e) % 3 == 0, True, False, "rr12" if len(e) % 2 else "rr1"))
                     out.append((nodes, e, 0x22, 3, (), True, False))
                     out.append((nodes, e, 0x12, 3, (2,), False, False))
                     out.append((nodes, e, 0x7E, 5, (3,), True, True))
@@ -284,6 +299,9 @@ def items(tier: str, seed: int) -> list[Any]:
                     for k, (depth, th, rs) in enumerate(itertools.product((1, 2, 3, 5), (False, True), (False, True))):
                         out.append((nodes, e, flavours[(gi + k) % 3], depth, skips[(gi // 3 + k) % 4], th, rs))
                 out.append((nodes, e, 0x12, 3, (), False, True, True))
+                for rr in ("rr1", "rr2", "rr12"):
+                    for depth, th in ((2, False), (3, False), (3, True)):
+                        out.append((nodes, e, flavours[gi % 3], depth, (), th, True, False, rr))
         nodes4 = (1, 2, 3, 0x40)
         for gi, g in enumerate(graphs(nodes4)):
             e = tuple(sorted(g))
